@@ -316,8 +316,14 @@ func VerifC10_History() {
 		_ = e.fs.Save(FieldChanges{{FieldCreate: FieldCreate{Measurement: []byte("cpu"), Field: f}, ChangeType: AddMeasurementField}})
 		st, err := os.Stat(log)
 		vrt.Assert(err == nil, "change log exists")
-		cut := vrt.Choose("crash_cut", size, int(st.Size())-1)
-		vrt.Assert(os.Truncate(log, int64(cut)) == nil, "crash: truncate")
+		// bytes of the unacknowledged record that reached the disk (relative, clamped: the native record
+		// is real protobuf and has another length than the solver-side layout)
+		rec := int(st.Size()) - size
+		j := vrt.Choose("crash_cut_offset", 0, rec-1)
+		if j > rec-1 {
+			j = rec - 1
+		}
+		vrt.Assert(os.Truncate(log, int64(size+j)) == nil, "crash: truncate")
 		vrt.Reach("torn change record")
 	}
 
